@@ -125,8 +125,8 @@ package bkl
 //@ func mergeListList(dst, src) (res, err)
 //@   consumes dst, src
 //@   uses noMarkerNoExtra, noStrNoRemove
-//@   ensures (= (isErr err) (llErr (ls dst) (ls src)))                             [C01] [C07]
-//@   ensures (=> (not (isErr err)) (= res (VList (llF (ls dst) (ls src)))))        [C01] [C07]
+//@   ensures (= (isErr err) (llErr (ls dst) (ls src)))                             [C01] [C07] [C17]
+//@   ensures (=> (not (isErr err)) (= res (VList (llF (ls dst) (ls src)))))        [C01] [C07] [C17]
 //@   decreases (+ (rank dst) (rank src)) 1
 //@   loop 1
 //@     invariant ((_ is VList) dst)
@@ -1007,14 +1007,28 @@ package bkl
 
 // ------------------------------------------------------------------------------------------------- file.go, filepath.go (layer resolution, C03)
 
-//@ func findFile(path) (res) trusted
-//@   ensures (= res (findFileF path))
+//@ func findFile(path) (res)
+//@   property C03, C20
+//@   ensures (= res (findFileF path))                                                                                    [C03] [C20]
+//@   loop 1
+//@     invariant (forall ((j String)) (=> (select visited j) (fileMissing (str.++ path "." j))))
 //
-//@ func isStdin(path) (res) trusted
+//@ func isStdin(path) (res)
 //@   ensures (= res (isStdinF path))
 //
-//@ func ext(path) (res) trusted
+//@ func ext(path) (res)
+//@   ensures (= res (extOf path))
 //@   ensures (= (extOK path) (not (= (fmtByName res) 0)))
+//
+//@ func FileMatch(path) (real, format, err)
+//@   property C20, C05
+//@   ensures (=> (not (extOK path)) (= err ErrInvalidType))                                                              [C20] [C05]
+//@   ensures (=> (and (extOK path) (= (pathBase (trimSuffix path (str.++ "." (extOf path)))) "-"))                       [C20] [C05]
+//@              (and (not (isErr err)) (= real path) (= format (extOf path))))
+//@   ensures (=> (and (extOK path) (not (= (pathBase (trimSuffix path (str.++ "." (extOf path)))) "-")))                 [C20] [C05]
+//@              (ite (= (findFileF (trimSuffix path (str.++ "." (extOf path)))) "")
+//@                   (= err ErrMissingFile)
+//@                   (and (not (isErr err)) (= real (findFileF (trimSuffix path (str.++ "." (extOf path))))) (= format (extOf path)))))
 //
 //@ func file.parentsFromFilename(f) (res, err)
 //@   property C03
